@@ -25,7 +25,8 @@ def add_op(rng, res, swarm):
         op['style'] = {'seed': rng.randint(0, 10 ** 6), 'shuffle_attrs': rng.random() < 0.5,
                        'cdata': rng.random() < 0.4, 'comments': rng.random() < 0.3,
                        'charrefs': rng.random() < 0.3, 'mixed_quotes': rng.random() < 0.3,
-                       'dup_stubs': rng.random() < 0.3}
+                       'dup_stubs': rng.random() < 0.3, 'raw_gt': rng.random() < 0.3,
+                       'loose_attrs': rng.random() < 0.25}
     return op
 
 
